@@ -1,210 +1,178 @@
 #!/venv/bin/python
-"""tools/extract_crypto.py --repo <repo> --out <lean file>
+"""tools/extract_crypto.py --repo <repo> [--tree <built tree>] --out <lean file>
 
-TRANSLATOR for the constant tables of packet protection: parses
-src/aioquic/quic/crypto.py, src/aioquic/quic/packet.py and src/aioquic/tls.py
-with `ast` (nothing is imported or executed) and emits
-lean/AQ/Gen/CryptoTables.lean.  `AQ.Props.C02b.tables_match_rfc` proves the
-emitted tables equal the RFC constants of AQ.Model.PacketProtSpec.
+TRANSLATOR for the constant tables of packet protection.  The tables are obtained
+by EVALUATING the code under test, not by matching its syntax: the working tree
+(a scratch copy with freshly compiled extensions, harness/tree.py) is imported and
 
-Anything whose shape is not the expected one is an error (exit 1): the check
-then reports a broken correspondence instead of guessing."""
+  * `derive_key_iv_hp` is called for every (cipher suite, version) with a
+    recording stub in place of `hkdf_expand_label`      -> labels, key / iv length
+  * `next_key_phase` is called on a context of every (suite, version)  -> "ku" label
+  * `CryptoPair.setup_initial` is called for both roles and versions with
+    recording stubs for `hkdf_extract` / `hkdf_expand_label`  -> salts, "client in" / "server in"
+  * `get_retry_integrity_tag` is called per version with a recording AESGCM  -> Retry key / nonce
+  * `encode_long_header_first_byte` / `pull_quic_header` are called for every
+    packet type and version                                -> long-header type bits
+  * plain constants (SAMPLE_SIZE, PACKET_NUMBER_MAX_SIZE, …) are read as module attributes.
+
+so any behaviour-preserving rewrite yields byte-identical output.  What cannot
+be observed that way (a stub never called, inconsistent answers between suites,
+labels that are not ASCII …) is an error (exit 1): the check then reports a
+broken correspondence instead of guessing.  `AQ.Props.C02b.tables_match_rfc`
+proves the emitted tables equal the RFC constants of AQ.Model.PacketProtSpec."""
 import argparse
-import ast
 import os
 import sys
+
+HERE = os.path.dirname(os.path.dirname(os.path.abspath(__file__)))
 
 
 class Bad(Exception):
     pass
 
 
-def parse(path):
-    return ast.parse(open(path).read(), path)
+def need(cond, msg):
+    if not cond:
+        raise Bad(msg)
 
 
-def top_assign(mod, name):
-    for n in mod.body:
-        if isinstance(n, ast.Assign) and len(n.targets) == 1 and isinstance(n.targets[0], ast.Name) \
-                and n.targets[0].id == name:
-            return n.value
-    raise Bad(f"no top-level assignment to {name}")
+def extract(tree_dir):
+    sys.path.insert(0, tree_dir)
+    for m in [m for m in sys.modules if m == "aioquic" or m.startswith("aioquic.")]:
+        del sys.modules[m]
+    import aioquic
+    need(aioquic.__file__.startswith(tree_dir), f"imported {aioquic.__file__}, not the tree under test")
+    from aioquic import tls
+    from aioquic.buffer import Buffer
+    from aioquic.quic import crypto, packet
 
-
-def func(mod, name):
-    for n in ast.walk(mod):
-        if isinstance(n, ast.FunctionDef) and n.name == name:
-            return n
-    raise Bad(f"no function {name}")
-
-
-def klass(mod, name):
-    for n in mod.body:
-        if isinstance(n, ast.ClassDef) and n.name == name:
-            return n
-    raise Bad(f"no class {name}")
-
-
-def const_int(e):
-    if isinstance(e, ast.Constant) and isinstance(e.value, int):
-        return e.value
-    raise Bad(f"expected int literal, got {ast.dump(e)}")
-
-
-def const_bytes(e):
-    if isinstance(e, ast.Constant) and isinstance(e.value, bytes):
-        return e.value
-    raise Bad(f"expected bytes literal, got {ast.dump(e)}")
-
-
-def unhexlify(e):
-    """binascii.unhexlify("…")"""
-    if isinstance(e, ast.Call) and isinstance(e.func, ast.Attribute) and e.func.attr == "unhexlify" \
-            and len(e.args) == 1 and isinstance(e.args[0], ast.Constant) and isinstance(e.args[0].value, str):
-        return bytes.fromhex(e.args[0].value)
-    raise Bad(f"expected binascii.unhexlify(<str>), got {ast.dump(e)}")
-
-
-def attr_name(e):
-    """X.NAME -> NAME"""
-    if isinstance(e, ast.Attribute):
-        return e.attr
-    raise Bad(f"expected attribute, got {ast.dump(e)}")
-
-
-def enum_values(cls):
-    out = {}
-    for n in cls.body:
-        if isinstance(n, ast.Assign) and len(n.targets) == 1 and isinstance(n.targets[0], ast.Name) \
-                and isinstance(n.value, ast.Constant) and isinstance(n.value.value, int):
-            out[n.targets[0].id] = n.value.value
-    return out
-
-
-def is_version2_test(t):
-    return (isinstance(t, ast.Compare) and len(t.ops) == 1 and isinstance(t.ops[0], ast.Eq)
-            and isinstance(t.comparators[0], ast.Attribute) and t.comparators[0].attr == "VERSION_2")
-
-
-def labels_of_return(stmt):
-    """return (hkdf_expand_label(alg, secret, b"label", b"", size), …×3) -> ([labels], [sizes])"""
-    if not (isinstance(stmt, ast.Return) and isinstance(stmt.value, ast.Tuple) and len(stmt.value.elts) == 3):
-        raise Bad("derive_key_iv_hp: expected `return (…, …, …)`")
-    labels, sizes = [], []
-    for c in stmt.value.elts:
-        if not (isinstance(c, ast.Call) and getattr(c.func, "id", None) == "hkdf_expand_label" and len(c.args) == 5):
-            raise Bad("derive_key_iv_hp: expected hkdf_expand_label(alg, secret, label, b\"\", size)")
-        if const_bytes(c.args[3]) != b"":
-            raise Bad("derive_key_iv_hp: non-empty hash value")
-        labels.append(const_bytes(c.args[2]))
-        sizes.append(c.args[4].id if isinstance(c.args[4], ast.Name) else const_int(c.args[4]))
-    return labels, sizes
-
-
-def extract(repo):
-    src = os.path.join(repo, "src", "aioquic")
-    crypto = parse(os.path.join(src, "quic", "crypto.py"))
-    packet = parse(os.path.join(src, "quic", "packet.py"))
-    tls = parse(os.path.join(src, "tls.py"))
     T = {}
-    suite_ids = enum_values(klass(tls, "CipherSuite"))
-    versions = enum_values(klass(packet, "QuicProtocolVersion"))
-    T["version1"], T["version2"] = versions["VERSION_1"], versions["VERSION_2"]
-    # CIPHER_SUITES = {CipherSuite.X: (b"hp", b"aead"), …}
-    d = top_assign(crypto, "CIPHER_SUITES")
-    if not isinstance(d, ast.Dict):
-        raise Bad("CIPHER_SUITES is not a dict literal")
-    names = {}
-    for k, v in zip(d.keys, d.values):
-        if not (isinstance(v, ast.Tuple) and len(v.elts) == 2):
-            raise Bad("CIPHER_SUITES value is not a pair")
-        names[attr_name(k)] = (const_bytes(v.elts[0]).decode(), const_bytes(v.elts[1]).decode())
-    T["initial_suite"] = suite_ids[attr_name(top_assign(crypto, "INITIAL_CIPHER_SUITE"))]
-    T["salt1"] = unhexlify(top_assign(crypto, "INITIAL_SALT_VERSION_1"))
-    T["salt2"] = unhexlify(top_assign(crypto, "INITIAL_SALT_VERSION_2"))
-    T["sample_size"] = const_int(top_assign(crypto, "SAMPLE_SIZE"))
-    # derive_key_iv_hp: key size per suite, labels per version
-    f = func(crypto, "derive_key_iv_hp")
-    big, key_big, key_small, lab = None, None, None, {}
-    for st in f.body:
-        if isinstance(st, ast.If) and isinstance(st.test, ast.Compare) and isinstance(st.test.ops[0], ast.In):
-            big = [attr_name(e) for e in st.test.comparators[0].elts]
-            key_big = const_int(st.body[0].value)
-            key_small = const_int(st.orelse[0].value)
-        elif isinstance(st, ast.If) and is_version2_test(st.test):
-            l2, s2 = labels_of_return(st.body[0])
-            l1, s1 = labels_of_return(st.orelse[0])
-            if s1 != ["key_size", 12, "key_size"] or s2 != s1:
-                raise Bad(f"derive_key_iv_hp: unexpected sizes {s1} {s2}")
-            lab = {1: l1, 2: l2}
-    if big is None or not lab:
-        raise Bad("derive_key_iv_hp: shape not recognised")
-    T["iv_length"] = 12
-    T["suites"] = sorted((suite_ids[n], hp, aead, key_big if n in big else key_small) for n, (hp, aead) in names.items())
-    # next_key_phase: the key-update label, per version if the code distinguishes
-    f = func(crypto, "next_key_phase")
-    ku = {}
-    plain = [const_bytes(c.args[2]) for c in ast.walk(f) if isinstance(c, ast.Call)
-             and getattr(c.func, "id", None) == "hkdf_expand_label" and isinstance(c.args[2], ast.Constant)]
-    if plain:
-        ku = {1: plain[0], 2: plain[0]}
-    else:
-        for st in f.body:
-            if isinstance(st, ast.If) and is_version2_test(st.test):
-                ku = {2: const_bytes(st.body[0].value), 1: const_bytes(st.orelse[0].value)}
-    if not ku:
-        raise Bad("next_key_phase: label not recognised")
-    T["labels1"] = [x.decode() for x in lab[1] + [ku[1]]]
-    T["labels2"] = [x.decode() for x in lab[2] + [ku[2]]]
-    # setup_initial: labels per role
-    f = func(crypto, "setup_initial")
-    st = next(s for s in f.body if isinstance(s, ast.If) and getattr(s.test, "id", None) == "is_client")
-    recv_c, send_c = (const_bytes(e) for e in st.body[0].value.elts)
-    recv_s, send_s = (const_bytes(e) for e in st.orelse[0].value.elts)
-    if (recv_c, send_c) != (send_s, recv_s):
-        raise Bad("setup_initial: client/server labels are not mirrored")
-    T["client_in"], T["server_in"] = send_c.decode(), send_s.decode()
-    # packet.py
-    T["rk1"] = unhexlify(top_assign(packet, "RETRY_AEAD_KEY_VERSION_1"))
-    T["rk2"] = unhexlify(top_assign(packet, "RETRY_AEAD_KEY_VERSION_2"))
-    T["rn1"] = unhexlify(top_assign(packet, "RETRY_AEAD_NONCE_VERSION_1"))
-    T["rn2"] = unhexlify(top_assign(packet, "RETRY_AEAD_NONCE_VERSION_2"))
-    T["retry_tag_size"] = const_int(top_assign(packet, "RETRY_INTEGRITY_TAG_SIZE"))
-    T["pn_max_size"] = const_int(top_assign(packet, "PACKET_NUMBER_MAX_SIZE"))
-    T["long_header"] = const_int(top_assign(packet, "PACKET_LONG_HEADER"))
-    T["fixed_bit"] = const_int(top_assign(packet, "PACKET_FIXED_BIT"))
+    V1, V2 = int(packet.QuicProtocolVersion.VERSION_1), int(packet.QuicProtocolVersion.VERSION_2)
+    T["version1"], T["version2"] = V1, V2
+    calls = []
+
+    def expand(algorithm, secret, label, hash_value, length):
+        calls.append(("expand", bytes(label), bytes(hash_value), int(length)))
+        return bytes(length)
+
+    def extract_(algorithm, salt, key_material):
+        calls.append(("extract", bytes(salt), bytes(key_material)))
+        return bytes(algorithm.digest_size)
+    real = (crypto.hkdf_expand_label, crypto.hkdf_extract)
+    crypto.hkdf_expand_label, crypto.hkdf_extract = expand, extract_
+    try:
+        # cipher table, key length, labels [key, iv, hp], iv length
+        suites = []
+        labels = {V1: None, V2: None}
+        iv_len = set()
+        need(isinstance(crypto.CIPHER_SUITES, dict) and crypto.CIPHER_SUITES, "CIPHER_SUITES is not a non-empty dict")
+        for cs, names in crypto.CIPHER_SUITES.items():
+            hp_name, aead_name = (bytes(x).decode("ascii") for x in names)
+            klen = set()
+            for v in (V1, V2):
+                del calls[:]
+                secret = bytes(tls.cipher_suite_hash(cs).digest_size)
+                out = crypto.derive_key_iv_hp(cipher_suite=cs, secret=secret, version=v)
+                need(len(calls) == 3 and all(c[0] == "expand" and c[2] == b"" for c in calls),
+                     f"derive_key_iv_hp({cs!r}, {v:#x}): expected three hkdf_expand_label(…, b\"\", n) calls, saw {calls}")
+                need([len(x) for x in out] == [c[3] for c in calls], "derive_key_iv_hp does not return (key, iv, hp) in call order")
+                lab = [c[1].decode("ascii") for c in calls]
+                need(labels[v] in (None, lab), f"labels differ between cipher suites: {labels[v]} / {lab}")
+                labels[v] = lab
+                need(calls[0][3] == calls[2][3], "key and hp lengths differ")
+                klen.add(calls[0][3])
+                iv_len.add(calls[1][3])
+            need(len(klen) == 1, f"key length of {cs!r} depends on the version")
+            suites.append((int(cs), hp_name, aead_name, klen.pop()))
+        need(len(iv_len) == 1, f"iv length is not constant: {iv_len}")
+        T["suites"] = sorted(suites)
+        T["iv_length"] = iv_len.pop()
+        # key update label: the first expansion next_key_phase performs
+        ku = {V1: set(), V2: set()}
+        for cs in crypto.CIPHER_SUITES:
+            for v in (V1, V2):
+                ctx = crypto.CryptoContext()
+                ctx.setup(cipher_suite=cs, secret=bytes(tls.cipher_suite_hash(cs).digest_size), version=v)
+                del calls[:]
+                nxt = crypto.next_key_phase(ctx)
+                need(calls and calls[0][0] == "expand" and calls[0][2] == b"" and
+                     calls[0][3] == tls.cipher_suite_hash(cs).digest_size,
+                     f"next_key_phase: first derivation is not the updated secret: {calls[:1]}")
+                need(nxt.key_phase == 1 - ctx.key_phase, "next_key_phase does not flip the key phase")
+                ku[v].add(calls[0][1].decode("ascii"))
+        need(all(len(x) == 1 for x in ku.values()), f"key update label depends on the cipher suite: {ku}")
+        T["labels1"] = labels[V1] + [ku[V1].pop()]
+        T["labels2"] = labels[V2] + [ku[V2].pop()]
+        # Initial secrets: salt per version, labels per role
+        roles = {}
+        salts = {}
+        for v in (V1, V2):
+            for is_client in (True, False):
+                del calls[:]
+                pair = crypto.CryptoPair()
+                cid = bytes(range(8))
+                pair.setup_initial(cid=cid, is_client=is_client, version=v)
+                ex = [c for c in calls if c[0] == "extract"]
+                need(len(ex) == 1 and ex[0][2] == cid, f"setup_initial: expected one hkdf_extract(salt, cid), saw {ex}")
+                salts.setdefault(v, set()).add(ex[0][1])
+                secret_len = tls.cipher_suite_hash(crypto.INITIAL_CIPHER_SUITE).digest_size
+                first = [c for c in calls if c[0] == "expand" and c[3] == secret_len and c[1] not in
+                         [x.encode() for x in labels[v]]][:2]
+                need(len(first) == 2, f"setup_initial: the two role secrets were not derived: {calls}")
+                need(pair.recv.cipher_suite == pair.send.cipher_suite == crypto.INITIAL_CIPHER_SUITE, "Initial cipher suite")
+                # order in the code: recv first, then send
+                roles.setdefault(("recv", is_client), set()).add(first[0][1])
+                roles.setdefault(("send", is_client), set()).add(first[1][1])
+        need(all(len(x) == 1 for x in roles.values()) and all(len(x) == 1 for x in salts.values()),
+             f"Initial labels / salts are not functions of role / version: {roles} {salts}")
+        cin, sin = roles[("send", True)].pop(), roles[("send", False)].pop()
+        need(roles[("recv", True)] == {sin} and roles[("recv", False)] == {cin}, "client/server Initial labels are not mirrored")
+        T["client_in"], T["server_in"] = cin.decode("ascii"), sin.decode("ascii")
+        T["salt1"], T["salt2"] = salts[V1].pop(), salts[V2].pop()
+        T["initial_suite"] = int(crypto.INITIAL_CIPHER_SUITE)
+    finally:
+        crypto.hkdf_expand_label, crypto.hkdf_extract = real
+    T["sample_size"] = int(crypto.SAMPLE_SIZE)
+    # Retry key / nonce: what get_retry_integrity_tag hands to AES-GCM
+    seen = []
+
+    class RecordingAESGCM:
+        def __init__(self, key):
+            self.key = bytes(key)
+
+        def encrypt(self, nonce, data, associated_data):
+            seen.append((self.key, bytes(nonce), bytes(data), bytes(associated_data)))
+            return bytes(packet.RETRY_INTEGRITY_TAG_SIZE)
+    real_gcm = packet.AESGCM
+    packet.AESGCM = RecordingAESGCM
+    try:
+        for v, k in ((V1, "1"), (V2, "2")):
+            del seen[:]
+            packet.get_retry_integrity_tag(b"\xf0retry", bytes(range(8)), version=v)
+            need(len(seen) == 1 and seen[0][2] == b"" and seen[0][3] == bytes([8]) + bytes(range(8)) + b"\xf0retry",
+                 f"get_retry_integrity_tag: expected one AESGCM.encrypt(nonce, b\"\", pseudo packet), saw {seen}")
+            T["rk" + k], T["rn" + k] = seen[0][0], seen[0][1]
+    finally:
+        packet.AESGCM = real_gcm
+    T["retry_tag_size"] = int(packet.RETRY_INTEGRITY_TAG_SIZE)
+    T["pn_max_size"] = int(packet.PACKET_NUMBER_MAX_SIZE)
+    T["long_header"] = int(packet.PACKET_LONG_HEADER)
+    T["fixed_bit"] = int(packet.PACKET_FIXED_BIT)
+    # long header type bits: encoder and parser must agree
     order = ["INITIAL", "ZERO_RTT", "HANDSHAKE", "RETRY"]
-    for v in (1, 2):
-        d = top_assign(packet, f"PACKET_LONG_TYPE_ENCODE_VERSION_{v}")
-        m = {attr_name(k): const_int(val) for k, val in zip(d.keys, d.values)}
-        T[f"lt{v}"] = [m[o] for o in order]
-    # get_retry_integrity_tag / encode_long_header_first_byte / pull_quic_header select the table by version
-    f = func(packet, "get_retry_integrity_tag")
-    st = next(s for s in f.body if isinstance(s, ast.If) and is_version2_test(s.test))
-    if [a.value.id for a in st.body] != ["RETRY_AEAD_KEY_VERSION_2", "RETRY_AEAD_NONCE_VERSION_2"] or \
-            [a.value.id for a in st.orelse] != ["RETRY_AEAD_KEY_VERSION_1", "RETRY_AEAD_NONCE_VERSION_1"]:
-        raise Bad("get_retry_integrity_tag: key/nonce selection not recognised")
-    f = func(packet, "encode_long_header_first_byte")
-    st = next(s for s in f.body if isinstance(s, ast.If) and is_version2_test(s.test))
-    if st.body[0].value.id != "PACKET_LONG_TYPE_ENCODE_VERSION_2" or st.orelse[0].value.id != "PACKET_LONG_TYPE_ENCODE_VERSION_1":
-        raise Bad("encode_long_header_first_byte: table selection not recognised")
-    ret = f.body[-1]
-    shift = [n for n in ast.walk(ret) if isinstance(n, ast.BinOp) and isinstance(n.op, ast.LShift)]
-    if len(shift) != 1 or const_int(shift[0].right) != 4:
-        raise Bad("encode_long_header_first_byte: type bits are not shifted by 4")
-    f = func(packet, "pull_quic_header")
-    dec = [n for n in ast.walk(f) if isinstance(n, ast.Subscript) and getattr(n.value, "id", "").startswith("PACKET_LONG_TYPE_DECODE_VERSION_")]
-    if sorted(n.value.id[-1] for n in dec) != ["1", "2"]:
-        raise Bad("pull_quic_header: decode tables not recognised")
-    for n in dec:
-        sl = n.slice
-        if not (isinstance(sl, ast.BinOp) and isinstance(sl.op, ast.RShift) and const_int(sl.right) == 4
-                and isinstance(sl.left, ast.BinOp) and isinstance(sl.left.op, ast.BitAnd) and const_int(sl.left.right) == 0x30):
-            raise Bad("pull_quic_header: type bits are not (first_byte & 0x30) >> 4")
-    for v in (1, 2):
-        d = top_assign(packet, f"PACKET_LONG_TYPE_DECODE_VERSION_{v}")
-        if "PACKET_LONG_TYPE_ENCODE_VERSION_%d" % v not in ast.dump(d):
-            raise Bad("decode table is not the inverse of the encode table")
+    for v, k in ((V1, "1"), (V2, "2")):
+        bits = []
+        for name in order:
+            pt = packet.QuicPacketType[name]
+            fb = packet.encode_long_header_first_byte(v, pt, 0)
+            need(fb & 0xC0 == T["long_header"] | T["fixed_bit"] and fb & 0x0F == 0, f"first byte {fb:#x} of {name}")
+            need(packet.encode_long_header_first_byte(v, pt, 0x0F) == fb | 0x0F, "low bits of the first byte")
+            data = bytes([fb]) + v.to_bytes(4, "big") + bytes(2) + bytes(20)
+            got = packet.pull_quic_header(Buffer(data=data), host_cid_length=8).packet_type
+            need(got == pt, f"pull_quic_header reads type bits of {name} (version {v:#x}) as {got}")
+            bits.append((fb & 0x30) >> 4)
+        need(sorted(bits) == [0, 1, 2, 3], f"type bits are not a permutation: {bits}")
+        T["lt" + k] = bits
     return T
 
 
@@ -257,12 +225,22 @@ end AQ.Gen.CryptoTables
 def main():
     ap = argparse.ArgumentParser()
     ap.add_argument("--repo", default=os.environ.get("VERIF_REPO", "/repo"))
+    ap.add_argument("--tree", help="directory holding a built copy of the aioquic package (harness/tree.py)")
     ap.add_argument("--out", required=True)
     a = ap.parse_args()
+    tree_dir = a.tree
+    if not tree_dir:
+        os.environ["VERIF_REPO"] = a.repo
+        sys.path.insert(0, HERE)
+        from harness import tree
+        tree_dir = tree.build()
     try:
-        T = extract(a.repo)
-    except (Bad, StopIteration, AttributeError, IndexError, KeyError) as e:
-        print(f"extract_crypto: {type(e).__name__}: {e}")
+        T = extract(tree_dir)
+    except Bad as e:
+        print(f"extract_crypto: cannot observe: {e}")
+        sys.exit(1)
+    except Exception as e:  # noqa  (the code under test raised while being evaluated)
+        print(f"extract_crypto: {type(e).__name__} while evaluating the code under test: {e}")
         sys.exit(1)
     text = emit(T, a.repo)
     old = open(a.out).read() if os.path.exists(a.out) else None
